@@ -130,6 +130,24 @@ def run(pid, tier, seed, replay=None):
         toks = [rng.choice([97, 43, 40, 41]) for _ in range(rng.randint(0, 9))]
         L += ['PARSE 0 %d %d %s' % (rng.choice([0, 1, 2]), len(toks), ' '.join(map(str, toks))), 'ERR 0', 'FREEG 0', 'FREET 0 1']
         add('flags', {'script': L[1 + 7:][:8]}, L)
+    # 5. several parses on one object, trees released in between and read afterwards
+    for _ in range(120 if quick else 1500):
+        g = gen.family_grammar(rng) if rng.random() < 0.5 else gen.rand_wf_grammar(rng, False, max_nt=3, max_t=3, max_rhs=3, p_anode=0.8, err_rules=rng.choice([0, 1]))
+        if g is None or not g.well_formed(False):
+            continue
+        ws = [w for w in (gen.rand_sentence(rng, g, maxlen=7) for _ in range(3)) if w is not None]
+        if not ws:
+            continue
+        ws = [w if rng.random() < 0.7 else gen.mutate(rng, g, w, 1) for w in ws]
+        am = rng.choice([0, 0, 1])
+        L = ['NEW 0', 'SET 0 0 %d' % rng.choice([0, 1, 2]), 'SET 0 2 %d' % rng.choice([0, 1]), 'SET 0 3 %d' % rng.choice([0, 0, 1])] + yvlib.script_read(0, g.as_dict(), 0)
+        for k, w in enumerate(ws):
+            L.append('PARSE 0 %d %d %s' % (am, len(w), ' '.join(map(str, gen.codes_of(g, w)))))
+            if k > 0 and rng.random() < 0.8:
+                L.append('FREET %d 1' % (k - 1))
+            L.append('WALK %d' % k)
+        L += ['FREEG 0'] + ['WALK %d' % (len(ws) - 1)] + ['FREET %d 1' % k for k in range(len(ws))]
+        add('reparse', {'grammar': yvlib.grammar_text(g.as_dict())[:300], 'inputs': [' '.join(w) for w in ws]}, L)
     res = yvlib.run_driver(exe, '\n'.join(c[2] for c in cases), timeout_case=10 if quick else 30, leaks=False)
     stats = {'cases': len(cases), 'by_kind': {}, 'nonzero_codes': {}, 'max_message_length': 0}
     for (kind, info, sc), r in zip(cases, res):
